@@ -590,6 +590,15 @@ func runFixed(seed int64, from, to int, brute bool) {
 				}
 			}
 			emitCase(id, zid, prev, res, ftoks, ex, loc.String(), class, oracle)
+			if !mutated && strings.HasPrefix(res, "F") {
+				// the meaning the generator rendered (its own value sets), independent of what the parser made of
+				// the text: a fire time must satisfy the expression AS WRITTEN
+				var ns int64
+				fmt.Sscan(res[1:], &ns)
+				if !e.matches(time.Unix(0, ns).In(loc)) {
+					fmt.Fprintf(out, "G\t%s\t%s\t%s\t%d\t%s\t%s\n", id, strings.ReplaceAll(ex, "\t", "\\t"), loc.String(), prev, res, time.Unix(0, ns).In(loc).Format("Mon 2006-01-02T15:04:05"))
+				}
+			}
 			return res
 		}
 		// schedule-independent placements
@@ -751,6 +760,16 @@ func runZone(seed int64, from, to int, names []string) {
 		z := zs[i%len(zs)]
 		e := genExpr(r, true)
 		e.year = nil
+		yearEnd := 0
+		if r.Intn(8) == 0 {
+			// a restricted year field and a prev around the end of its last year: the year must be read on the
+			// LOCAL clock (31 December local is already 1 January in UTC west of Greenwich, and vice versa)
+			yearEnd = 1971 + r.Intn(229)
+			e.year = []int{yearEnd}
+			if r.Intn(2) == 0 {
+				e.year = []int{yearEnd - 1, yearEnd}
+			}
+		}
 		if r.Intn(10) == 0 {
 			// dense schedules: every second / every few seconds all day, so that a gap or a skipped day
 			// removes thousands of consecutive matching readings
@@ -833,6 +852,11 @@ func runZone(seed int64, from, to int, names []string) {
 			}
 		} else {
 			prev = r.Int63n(7258118400)
+		}
+		if yearEnd != 0 {
+			prev = time.Date(yearEnd, 12, 31, 0, 0, 0, 0, time.UTC).Unix() + r.Int63n(60*3600) - 6*3600
+			class = "year-end"
+			twinDelta = 0
 		}
 		if prev < 0 {
 			prev = 0
@@ -955,11 +979,30 @@ func runPure(seed int64, n int) {
 		}
 		want := make([]string, len(prevs))
 		before := fmt.Sprint(quartz.VerifTriggerFields(tr), tr.Description())
+		// the reference answers come from a FRESH trigger per prev (same expression and location), so that
+		// state kept between calls on one trigger (memos, trimmed fields, cached zone periods) shows up as a
+		// difference whatever the order of the calls
 		for k, p := range prevs {
-			want[k] = fire(tr, p, ex)
+			ft, ferr := quartz.NewCronTriggerWithLoc(ex, loc)
+			if ferr != nil {
+				want[k] = "X" + ferr.Error()
+				continue
+			}
+			want[k] = fire(ft, p, ex)
+		}
+		var mism atomic.Int64
+		// sequential calls on the one trigger, first in generation order, then backwards
+		for k, p := range prevs {
+			if fire(tr, p, ex) != want[k] {
+				mism.Add(1)
+			}
+		}
+		for k := len(prevs) - 1; k >= 0; k-- {
+			if fire(tr, prevs[k], ex) != want[k] {
+				mism.Add(1)
+			}
 		}
 		var wg sync.WaitGroup
-		var mism atomic.Int64
 		for g := 0; g < 16; g++ {
 			wg.Add(1)
 			go func(g int) {
@@ -988,7 +1031,7 @@ func runPure(seed int64, n int) {
 			}
 		}
 		after := fmt.Sprint(quartz.VerifTriggerFields(tr), tr.Description())
-		total += len(prevs) * 18
+		total += len(prevs) * 20
 		if mism.Load() != 0 || before != after {
 			bad++
 			fmt.Fprintf(out, "U\t%d\t%s\t%s\tmismatches=%d\tchanged=%v\n", i, ex, loc, mism.Load(), before != after)
